@@ -1333,7 +1333,7 @@ static REPORT_PATH: std::sync::OnceLock<PathBuf> = std::sync::OnceLock::new();
 fn conc_child(plan: &Plan, dir: &Path) -> Value {
 	let harness = |m: String| json!({"status": "harness", "msg": m});
 	let failv = |f: &Fail, stats: Value| json!({"status": "fail", "sig": f.sig, "msg": f.msg, "stats": stats});
-	let store = match open_store(dir) {
+	let mut store = match open_store(dir) {
 		Ok(s) => Arc::new(s),
 		Err(e) => return harness(format!("open: {}", e)),
 	};
@@ -1407,12 +1407,25 @@ fn conc_child(plan: &Plan, dir: &Path) -> Value {
 	let mut rng = Rng::new(plan.rng, 1);
 	let mut warm = 0u64;
 	let mut warm_held = 0u64;
+	let mut warm_reopened = false;
 	loop {
 		let map = map_size(dir).unwrap_or(0);
 		if map_sizes.last() != Some(&map) {
 			map_sizes.push(map);
 			sh.map_now.store(map, Ordering::Relaxed);
 			sh.over_since_resize.store(0, Ordering::SeqCst);
+		}
+		// a third of the plans close the store and open it again in the middle of the warm-up, once the map has
+		// been enlarged twice: what the enlargements achieved has to be there for the next life of the database
+		// (the batches that follow, opened under a held iterator or not, must find room as before)
+		if plan.rng % 3 == 0 && !warm_reopened && map_sizes.len() >= 3 {
+			warm_reopened = true;
+			drop(store);
+			store = match open_store(dir) {
+				Ok(s) => Arc::new(s),
+				Err(e) => return failv(&dberr("conc", "Store::new (reopen during the warm-up)", e), json!({"phase": "warm-up", "map_sizes": map_sizes})),
+			};
+			continue;
 		}
 		if map >= need {
 			break;
@@ -1579,6 +1592,7 @@ fn conc_child(plan: &Plan, dir: &Path) -> Value {
 			"warm_up_batches": warm,
 			"warm_up_batches_opened_holding_an_iterator": warm_held,
 			"warm_up_resizes": warm_resizes,
+			"warm_up_reopens": warm_reopened as u64,
 			"resizes": map_sizes.len() - 1 - warm_resizes,
 			"batches": sh.batches.load(Ordering::Relaxed),
 			"dropped_batches": sh.dropped_batches.load(Ordering::Relaxed),
@@ -1710,6 +1724,7 @@ fn conc_once(ctx: &Ctx, plan: &Plan, counting: bool) -> PResult {
 					ev.class(&format!("conc_runs_with_resizes:{}", resizes));
 					ev.class_n("conc_resizes_observed", resizes);
 					ev.class_n("conc_warm_up_resizes_observed", stats["warm_up_resizes"].as_u64().unwrap_or(0));
+					ev.class_n("conc_warm_ups_with_a_reopen_after_two_enlargements", stats["warm_up_reopens"].as_u64().unwrap_or(0));
 					ev.class_n("conc_batches_committed", stats["batches"].as_u64().unwrap_or(0) + stats["warm_up_batches"].as_u64().unwrap_or(0));
 					ev.class_n("conc_batches_dropped", stats["dropped_batches"].as_u64().unwrap_or(0));
 					ev.class_n("conc_child_batches_committed", stats["child_commits"].as_u64().unwrap_or(0));
